@@ -411,6 +411,28 @@ static void op_set_binary(World &w, size_t i, size_t n) {
   check_all(w, ok ? "set binary" : "refused set binary");
   note_transition(w, "set-binary", was, s.external());
 }
+// set from a range of the identifier's OWN current data (a caller shortening a name in place: prefix, suffix, middle, whole):
+// the new content is what that range held before the call
+static void op_set_alias(World &w, size_t i, size_t off, size_t len) {
+  Ctx &c = w.c;
+  Slot &s = w.s[i];
+  bool was = s.external();
+  const std::string old = *s.model;
+  std::string want = old.substr(off, len);
+  const char *data = (const char *)mpt_identifier_data(s.id);
+  c.logf("set #%zu (%s, _max %u, %s, %s) <- its own data [%zu,+%zu)", i, kKind[s.kind], (unsigned)s.max(), show(s.model).c_str(), was ? "external" : "inline", off, len);
+  bool ok;
+  if (s.cxx()) ok = s.id->set_name(data + off, (int)len);
+  else ok = mpt_identifier_set(s.id, data + off, (int)len) != 0;
+  CK(c, ok, "set-refused", "set of %zu bytes of the identifier's own data refused", len);
+  s.model = Model(want);
+  check_all(w, "set from own data");
+  char b[48];
+  snprintf(b, sizeof b, "set-alias:%s", trans(was, s.external()));
+  c.label(b);
+  c.label(off == 0 ? (len == old.size() ? "set-alias:whole" : "set-alias:prefix") : off + len == old.size() ? "set-alias:suffix" : "set-alias:middle");
+  if (was != s.external()) ++w.transitions;
+}
 static void check_equal(World &w, size_t a, size_t b, const char *after) {
   Ctx &c = w.c;
   bool same = w.s[a].model == w.s[b].model;
@@ -646,7 +668,7 @@ static void run(Ctx &c) {
   while (c.more() && ops < 60) {
     ++ops;
     size_t i = c.pick(n);
-    switch (c.weighted({8, 2, 6, 5, 3, 1, 3, 3, 2})) {  // new operations are added at the end
+    switch (c.weighted({8, 2, 6, 5, 3, 1, 3, 3, 2, 2})) {  // new operations are added at the end
       case 0: {
         size_t len = draw_len(c, w.s[i].max());
         std::string t = mk_content(c, len);
@@ -684,7 +706,21 @@ static void run(Ctx &c) {
         break;
       }
       case 7: op_locate(c); break;
-      default: {  // one step with the k-th library allocation failing
+      case 9: {  // set from the identifier's own data; give it content first when it has none
+        Slot &sl = w.s[i];
+        if (!sl.model || sl.model->empty()) op_set(w, i, mk_content(c, draw_len(c, sl.max())), false);
+        if (!sl.model || sl.model->size() > 65534) break;
+        size_t L = sl.model->size(), off, len;
+        switch (c.weighted({3, 3, 1, 2})) {
+          case 0: off = 0; len = c.weighted({1, 1}) ? c.range(0, L) : std::min(L, (size_t)(sl.max() ? sl.max() - 1 : 0)); break;  // prefix (often: the longest that fits inline)
+          case 1: len = c.weighted({1, 1}) ? c.range(0, L) : std::min(L, (size_t)(sl.max() ? sl.max() - 1 : 0)); off = L - len; break;  // suffix
+          case 2: off = 0; len = L; break;
+          default: off = c.range(0, L); len = c.range(0, L - off); break;
+        }
+        op_set_alias(w, i, off, len);
+        break;
+      }
+      case 8: {  // one step with the k-th library allocation failing
         long k = 1 + (long)c.weighted({4, 1, 1});
         size_t max_ = w.s[i].max();
         switch (c.weighted({4, 2, 4, 2, 1, 1})) {
@@ -735,6 +771,7 @@ static void run(Ctx &c) {
         w.disarm();
         break;
       }
+      default: break;
     }
   }
   if (w.transitions) c.nontrivial();
@@ -849,6 +886,7 @@ static Target t = {
     "Locating by name: lists of 1-6 C nodes with repeated names out of a family (base, base+1 byte, base-1 byte, 300 bytes, empty, none), mpt_node_locate from any start node with pos -3..6, "
     "name passed as exact-size heap copy without terminator / segment followed by other bytes / terminated / explicit UTF8 charset, result compared with the model list. "
     "exhaustive: {5 storage sizes, static initialiser} x previous content x new content (none, text 0,1,cap-1,cap,cap+1,cap+2,300, binary 1,max-1,max,max+1,max+2,300) x {set, copy from each of 5 storage sizes} x {plain, first library allocation fails} x {C, C++}. "
+    "set from a range (prefix/suffix/middle/whole) of the identifier's own current data, all inline/external transitions. "
     "Allocation-failure injection (engine): a share of the steps runs set/set-binary/copy/creation with the k-th (1..3) library allocation failing: the call reports failure or succeeds completely, "
     "after a reported failure every identifier reads back exactly as before, nothing leaks. "
     "non-trivial: at least one identifier switched between inline and external storage (by what _len/_max say after the operation); distinct by hash of the draw sequence.",
